@@ -329,3 +329,69 @@ pub proof fn lemma_desc_groups_bound(d: Seq<u8>, p: int, i: int)
     }
 }
 pub open spec fn pow128(i: int) -> int { if i <= 0 { 1 } else if i == 1 { 128 } else if i == 2 { 16384 } else if i == 3 { 2097152 } else { 268435456 } }
+
+// ---- iTunes metadata boxes, encode side
+pub open spec fn data_len(b: DataBox) -> int { 16 + (b.data@.len() as int) }
+pub open spec fn data_wire(b: DataBox) -> bool { len_fits(data_len(b)) }
+pub open spec fn datatype_code(t: DataType) -> u32 { match t { DataType::Binary => 0, DataType::Text => 1, DataType::Image => 13, DataType::TempoCpil => 21 } }
+/// header + type indicator + locale 0 + payload
+pub open spec fn data_bytes(b: DataBox) -> Seq<u8> {
+    hdr_bytes(data_len(b) as u64, 0x64617461) + be_bytes(datatype_code(b.data_type) as nat, 4) + be_bytes(0, 4) + b.data@
+}
+pub open spec fn ilst_item_len(b: IlstItemBox) -> int { 8 + data_len(b.data) }
+
+pub open spec fn elst_wire(b: ElstBox) -> bool { flags_wire(b.flags) && b.version <= 1 && len_fits(elst_len(b)) }
+pub open spec fn edts_wire(b: EdtsBox) -> bool { (b.elst matches Some(x) ==> elst_wire(x)) && len_fits(edts_len(b)) }
+
+// ---- trun (8.8.8): FullBox, sample_count, [data_offset], [first_sample_flags], per sample [duration][size][flags][cts] as gated by tr_flags
+pub open spec fn flag_set(flags: u32, bit: u32) -> bool { bit & flags > 0 }
+pub open spec fn trun_per_sample(flags: u32) -> int {
+    (if flag_set(flags, 0x100) { 4int } else { 0 }) + (if flag_set(flags, 0x200) { 4int } else { 0 })
+    + (if flag_set(flags, 0x400) { 4int } else { 0 }) + (if flag_set(flags, 0x800) { 4int } else { 0 })
+}
+pub open spec fn trun_samples_len(flags: u32, n: int) -> int {
+    (if flag_set(flags, 0x100) { 4 * n } else { 0 }) + (if flag_set(flags, 0x200) { 4 * n } else { 0 })
+    + (if flag_set(flags, 0x400) { 4 * n } else { 0 }) + (if flag_set(flags, 0x800) { 4 * n } else { 0 })
+}
+pub open spec fn trun_len(b: TrunBox) -> int {
+    16 + (if flag_set(b.flags, 0x01) { 4int } else { 0 }) + (if flag_set(b.flags, 0x04) { 4int } else { 0 }) + trun_samples_len(b.flags, b.sample_count as int)
+}
+/// representable: flag bits agree with the optional fields and the per-sample vectors the encoder indexes are long enough
+/// (the encoder also insists on sample_sizes.len() == sample_count whatever the flags say: D-09)
+pub open spec fn trun_wire(b: TrunBox) -> bool {
+    &&& flags_wire(b.flags)
+    &&& (flag_set(b.flags, 0x01) <==> b.data_offset is Some) && (flag_set(b.flags, 0x04) <==> b.first_sample_flags is Some)
+    &&& b.sample_sizes@.len() == b.sample_count
+    &&& (flag_set(b.flags, 0x100) ==> b.sample_durations@.len() == b.sample_count)
+    &&& (flag_set(b.flags, 0x400) ==> b.sample_flags@.len() == b.sample_count)
+    &&& (flag_set(b.flags, 0x800) ==> b.sample_cts@.len() == b.sample_count)
+    &&& len_fits(trun_len(b))
+}
+
+// ---- movie fragments, encode side (not produced by Mp4Writer)
+pub open spec fn traf_len(b: TrafBox) -> int {
+    8 + tfhd_len(b.tfhd) + (match b.tfdt { Some(x) => tfdt_len(x), None => 0 }) + (match b.trun { Some(x) => trun_len(x), None => 0 })
+}
+pub open spec fn traf_wire(b: TrafBox) -> bool {
+    tfhd_wire(b.tfhd) && (b.tfdt matches Some(x) ==> tfdt_wire(x)) && (b.trun matches Some(x) ==> trun_wire(x)) && len_fits(traf_len(b))
+}
+pub open spec fn trafs_len(v: Seq<TrafBox>, n: int) -> int
+    decreases n
+{
+    if n <= 0 { 0 } else { trafs_len(v, n - 1) + traf_len(v[n - 1]) }
+}
+pub open spec fn moof_len(b: MoofBox) -> int { 8 + mfhd_len(b.mfhd) + trafs_len(b.trafs@, b.trafs@.len() as int) }
+pub open spec fn moof_wire(b: MoofBox) -> bool {
+    &&& mfhd_wire(b.mfhd)
+    &&& forall|i: int| 0 <= i < b.trafs@.len() ==> traf_wire(#[trigger] b.trafs@[i])
+    &&& len_fits(moof_len(b))
+}
+pub proof fn lemma_trafs_len_mono(v: Seq<TrafBox>, a: int, n: int)
+    requires 0 <= a <= n <= v.len(), forall|i: int| 0 <= i < v.len() ==> traf_len(#[trigger] v[i]) >= 0
+    ensures 0 <= trafs_len(v, a) <= trafs_len(v, n)
+    decreases n
+{
+    if n > 0 { if a < n { lemma_trafs_len_mono(v, a, n - 1); } else { lemma_trafs_len_mono(v, a - 1, n - 1); } }
+}
+pub open spec fn mvex_len(b: MvexBox) -> int { 8 + (match b.mehd { Some(x) => mehd_len(x), None => 0 }) + trex_len(b.trex) }
+pub open spec fn mvex_wire(b: MvexBox) -> bool { (b.mehd matches Some(x) ==> mehd_wire(x)) && trex_wire(b.trex) }
